@@ -25,7 +25,7 @@ def run_catalogue(chk: Check, select, algs=None, extra_flags=None):
         sel = [s for s in select if s in cfg.get("only", select)]
         if not sel:
             continue
-        flags = dict(loop_budget=catalogue.loop_budget(cfg), argsort_all_ties=not cfg.get("stable_ties", False))
+        flags = dict(loop_budget=catalogue.loop_budget(cfg), argsort_all_ties=not cfg.get("stable_ties", False), wrap_narrow=True)
         flags.update(extra_flags or {})
         label = f"{cfg['alg']}/n={cfg['n']}/params={cfg['params']}"
         if cfg.get("pin"):
